@@ -15,7 +15,8 @@ RULE = (
     "FouriersLawAd on a TPFA base discretisation (on an MPFA base the library documents the Jacobian as an approximation, "
     "so it is not generated here), a random time step, a state x = x_ref + delta (delta scaled per "
     "variable, amplitude 1e-2..0.5) and a random previous-time-step state; the same model instance is taken through 1-3 "
-    "such states in sequence, each checked; the thorough tier adds a 400 / 600-cell fracture (operators with thousands of "
+    "such states in sequence, each checked, in half of these cases with an evaluation that raises (size mismatch after a "
+    "variable has been parsed, at yet another state) in between; the thorough tier adds a 400 / 600-cell fracture (operators with thousands of "
     "stored entries). Discretizations are brought up to date at x "
     "(before_nonlinear_iteration, i.e. upwind directions follow the state) and then held fixed. Oracle: for a random "
     "direction v, J v = -(b(x+hv) - b(x-hv)) / 2h (b = assembled rhs = -residual), best of h in {1e-5,1e-6,1e-7}, "
@@ -32,7 +33,7 @@ LEVEL_NOTE = ("Numerical derivative: errors below 1e-6 relative are invisible; o
               "library's small test geometries; real models are expensive, so case counts are hundreds, not millions.")
 DESIGN_REF = "DESIGN.md section 4, C03"
 ASSUMPTIONS = ["discretization matrices frozen during differencing", "state in the smooth region (non-smooth stencils discarded and counted)"]
-REQUIRED = {"states2": 0.15, "states3": 0.15, "ad-flux": 0.08}
+REQUIRED = {"states2": 0.15, "states3": 0.15, "failed-evaluation-between-states": 0.1, "ad-flux": 0.08}
 
 
 def strategy(tier):
@@ -57,14 +58,37 @@ def check(spec):
     nstates = 1 + spec["pseed"] % 3
     out = None
     for s in range(nstates):
-        r = _check_state(m, spec, s)
+        r = _check_state(m, spec, s, fail_first=(s > 0 and (spec["pseed"] // 3) % 2 == 0))
         if out is None or not r["labels"][0].startswith("discarded-nonfinite"):
             out = r
     out["labels"].append(f"states{nstates}")
+    if nstates > 1 and (spec["pseed"] // 3) % 2 == 0:
+        out["labels"].append("failed-evaluation-between-states")
     return out
 
 
-def _check_state(m, spec, s):
+def _failed_evaluation(m, spec, s):
+    """An evaluation that raises half-way (a line search stepping into an inadmissible state, an ill-formed operator)
+    at some other state: it must not influence the assemblies that follow on the same model instance."""
+    import porepy as pp
+
+    es = m.equation_system
+    xo = random_state(m, spec, 100 + s)
+    # one of the model's own equations (so that the very operator objects of the model are involved) times an array of
+    # the wrong size: the whole equation tree is evaluated at the other state before the product raises
+    eq = next(iter(es.equations.values()))
+    bad = eq * pp.ad.DenseArray(np.ones(3 * es.num_dofs() + 7))
+    for jac in (True, False):
+        try:
+            if jac:
+                bad.value_and_jacobian(es, state=xo.copy())
+            else:
+                es.evaluate(bad, state=xo.copy())
+        except Exception:  # noqa: BLE001 - the failure is the point
+            pass
+
+
+def _check_state(m, spec, s, fail_first=False):
     es = m.equation_system
     n = es.num_dofs()
     x = random_state(m, spec, 2 * s)
@@ -72,6 +96,8 @@ def _check_state(m, spec, s):
     es.set_variable_values(xt, time_step_index=0)
     es.set_variable_values(x, iterate_index=0)
     m.before_nonlinear_iteration()
+    if fail_first:
+        _failed_evaluation(m, spec, s)  # immediately before the assembly that is checked
     A, b = es.assemble(state=x.copy())
     if not (np.all(np.isfinite(b)) and np.all(np.isfinite(A.data))):
         # the random state overflowed an exponential law (possible with extreme simulation units): not a smooth point
